@@ -29,6 +29,12 @@ TInject  == /\ Ev.kind = "inject"
             /\ \/ Ev.t \in ReqTypes /\ Inject(Ev.s, Ev.t, Ev.tok, Ev.b)
                \/ Ev.t \in PlainRespTypes /\ InjectRespType(Ev.s, Ev.t, Ev.tok)
             /\ Match
+TMutant  == /\ Ev.kind = "mutant"
+            /\ \/ Ev.b = "http" /\ MutantHttp(Ev.s, Ev.t)
+               \/ Ev.b # "http" /\ Ev.t \in ReqTypes /\ Mutant(Ev.s, Ev.t)
+               \/ Ev.b # "http" /\ Ev.t \in StartTypes /\ MutantStart(Ev.s, Ev.t)
+               \/ Ev.b # "http" /\ Ev.t = 255 /\ MutantError(Ev.s)
+            /\ Match
 TOrphan  == Ev.kind = "orphan" /\ OrphanStart(Ev.s, Ev.t, Ev.b) /\ Match
 TErrMsg  == Ev.kind = "errmsg" /\ ErrorMsg(Ev.s, Ev.tok) /\ Match
 TExpire  == /\ Ev.kind = "expire"
@@ -48,7 +54,7 @@ TraceInit == Init /\ l = 1
 TraceNext ==
     /\ l <= Len(Trace)
     /\ l' = l + 1
-    /\ (TStart \/ THonest \/ TForged \/ TInject \/ TOrphan \/ TErrMsg \/ TExpire \/ TRestart \/ TReset)
+    /\ (TStart \/ THonest \/ TForged \/ TInject \/ TMutant \/ TOrphan \/ TErrMsg \/ TExpire \/ TRestart \/ TReset)
 
 TraceSpec == TraceInit /\ [][TraceNext]_<<vars, l>>
 
